@@ -118,6 +118,17 @@ type c03Rule struct {
 	Routes  []c03Route `json:"routes"`
 	Slash   string     `json:"slash"` // "" (= off), off, on, no_decode
 	Bt      bool       `json:"bt"`
+	// only for cases with a history: the rule id ("" = r<index>; versions of one rule share it) and the rule set
+	ID  string `json:"id,omitempty"`
+	Src int    `json:"src,omitempty"`
+}
+
+// one rule-set operation of a history: add = AddRuleSet, update = UpdateRuleSet(s<Src>), delete = DeleteRuleSet(s<Src>);
+// Rules = indices into the case's rule table (which holds every version of every rule)
+type c03HOp struct {
+	Kind  string `json:"kind"`
+	Src   int    `json:"src"`
+	Rules []int  `json:"rules,omitempty"`
 }
 
 // Style: http (request line), fwd (X-Forwarded-Uri/-Method/-Host/-Proto), envoy (CheckRequest),
@@ -140,6 +151,10 @@ type c03Case struct {
 	// second AddRuleSet - on a clone of the non-empty tree, under the one-source-per-node constraint; the second
 	// may be refused, the first then stays loaded
 	Split int `json:"split,omitempty"`
+	// non-empty: the repository is brought into its state by this history of AddRuleSet / UpdateRuleSet /
+	// DeleteRuleSet calls (each on a clone of the tree, all-or-nothing) before the requests are served: the tree has
+	// then gone through Tree.Delete (deleteChild merges) as well as Tree.Add (prefix splits)
+	Hist []c03HOp `json:"hist,omitempty"`
 }
 
 // what the rule set validator accepts, as far as the conditions of C03 are concerned (internal/rules/config:
@@ -293,6 +308,8 @@ type c03Obs struct {
 	Oracle   []c03Oracle       `json:"oracle,omitempty"`
 	Reqs     []c03ReqObs       `json:"reqs,omitempty"`
 	Skipped  int               `json:"skipped,omitempty"` // requests the HTTP server itself refuses
+	OpOK     []bool            `json:"op_ok,omitempty"`   // history: which operations the repository accepted
+	Hash     []int             `json:"hash,omitempty"`    // history: equality classes of the created rules' hashes
 	Extra    map[string]string `json:"-"`
 }
 
@@ -304,6 +321,15 @@ type c03RecRule struct {
 }
 
 func (r *c03RecRule) Routes() []rule.Route { return r.wrapped }
+
+// ruleImpl.EqualTo asserts that the other rule is a *ruleImpl; UpdateRuleSet hands it the wrappers
+func (r *c03RecRule) EqualTo(other rule.Rule) bool {
+	if o, ok := other.(*c03RecRule); ok {
+		other = o.ruleImpl
+	}
+
+	return r.ruleImpl.EqualTo(other)
+}
 
 type c03RecRoute struct {
 	inner rule.Route
@@ -491,8 +517,11 @@ func c03Candidates(lp string) []string {
 
 // one instance of the rule set: the real factory, the real rules (wrapped by the recorder), the real repository
 type c03Instance struct {
-	repo rule.Repository
-	log  *[]c03Call
+	repo    rule.Repository
+	log     *[]c03Call
+	ruleIdx map[rule.Rule]int // created rule -> index in the case's rule table
+	opOK    []bool
+	hash    []int
 }
 
 // c03Build creates the rules of the case anew (new matcher instances) and loads them into a new repository
@@ -512,7 +541,14 @@ func c03Build(c c03Case) (inst *c03Instance, load, errText string) {
 
 	var parsed *config2.RuleSet
 
-	if c.Via == "json" {
+	ruleIdx := map[rule.Rule]int{}
+
+	var (
+		hashes  [][]byte
+		hashCls []int
+	)
+
+	if c.Via == "json" && len(c.Hist) == 0 {
 		if parsed, err = config2.ParseRules("application/json", strings.NewReader(string(c03RuleSetText(c))), false); err != nil {
 			return nil, "create_failed", "parse: " + err.Error()
 		}
@@ -524,8 +560,13 @@ func c03Build(c c03Case) (inst *c03Instance, load, errText string) {
 
 	for i, r := range c.Rules {
 		bt := r.Bt
+		id := r.ID
+		if id == "" {
+			id = fmt.Sprintf("r%d", i)
+		}
+
 		rc := config2.Rule{
-			ID:                     fmt.Sprintf("r%d", i),
+			ID:                     id,
 			EncodedSlashesHandling: c03Slash(r.Slash),
 			Matcher: config2.Matcher{
 				Scheme: r.Scheme, Methods: append([]string(nil), r.Methods...), BacktrackingEnabled: &bt,
@@ -555,6 +596,10 @@ func c03Build(c c03Case) (inst *c03Instance, load, errText string) {
 			src = "src2"
 		}
 
+		if len(c.Hist) > 0 {
+			src = fmt.Sprintf("s%d", r.Src)
+		}
+
 		created, err := f.CreateRule("1alpha4", src, rc)
 		if err != nil {
 			return nil, "create_failed", err.Error()
@@ -562,6 +607,22 @@ func c03Build(c c03Case) (inst *c03Instance, load, errText string) {
 
 		ri := created.(*ruleImpl) //nolint:forcetypeassert
 		wr := &c03RecRule{ruleImpl: ri}
+		ruleIdx[ri] = i
+
+		cls := -1
+
+		for j, h := range hashes {
+			if string(h) == string(ri.hash) {
+				cls = j
+			}
+		}
+
+		if cls < 0 {
+			cls = len(hashes)
+			hashes = append(hashes, ri.hash)
+		}
+
+		hashCls = append(hashCls, cls)
 
 		for _, rt := range ri.Routes() {
 			wr.wrapped = append(wr.wrapped, &c03RecRoute{inner: rt, vid: vid, log: log})
@@ -569,6 +630,32 @@ func c03Build(c c03Case) (inst *c03Instance, load, errText string) {
 		}
 
 		rules = append(rules, wr)
+	}
+
+	if len(c.Hist) > 0 {
+		inst = &c03Instance{repo: repo, log: log, ruleIdx: ruleIdx, hash: hashCls}
+
+		for _, op := range c.Hist {
+			var set []rule.Rule
+			for _, i := range op.Rules {
+				set = append(set, rules[i])
+			}
+
+			var err error
+
+			switch op.Kind {
+			case "add":
+				err = repo.AddRuleSet(fmt.Sprintf("s%d", op.Src), set)
+			case "update":
+				err = repo.UpdateRuleSet(fmt.Sprintf("s%d", op.Src), set)
+			default:
+				err = repo.DeleteRuleSet(fmt.Sprintf("s%d", op.Src))
+			}
+
+			inst.opOK = append(inst.opOK, err == nil)
+		}
+
+		return inst, "loaded", ""
 	}
 
 	first := rules
@@ -586,7 +673,7 @@ func c03Build(c c03Case) (inst *c03Instance, load, errText string) {
 		}
 	}
 
-	return &c03Instance{repo: repo, log: log}, "loaded", errText
+	return &c03Instance{repo: repo, log: log, ruleIdx: ruleIdx, hash: hashCls}, "loaded", errText
 }
 
 // c03Serve looks the request up in the instance and executes the rule found
@@ -615,7 +702,11 @@ func c03Serve(inst *c03Instance, q c03Req) (ro c03ReqObs, ok bool) {
 		}
 
 		ro.Result = "rule"
-		fmt.Sscanf(found.ID(), "r%d", &ro.Rule)
+		if i, ok := inst.ruleIdx[found]; ok {
+			ro.Rule = i
+		} else {
+			fmt.Sscanf(found.ID(), "r%d", &ro.Rule)
+		}
 
 		c03Seen = nil
 
@@ -652,6 +743,8 @@ func c03Run(c c03Case) (obs c03Obs) {
 	if inst == nil {
 		return obs
 	}
+
+	obs.OpOK, obs.Hash = inst.opOK, inst.hash
 
 	seen := map[string]bool{}
 	ask := func(host bool, tm c03TM, vals []string) {
@@ -812,6 +905,53 @@ func c03Coq(c c03Case, o c03Obs) string {
 	split := len(c.Rules)
 	if c.Split > 0 && c.Split < split {
 		split = c.Split
+	}
+
+	if len(c.Hist) > 0 {
+		ids := map[string]int{}
+		metas := make([]string, 0, len(c.Rules))
+
+		for i, r := range c.Rules {
+			id := r.ID
+			if id == "" {
+				id = fmt.Sprintf("r%d", i)
+			}
+
+			if _, ok := ids[id]; !ok {
+				ids[id] = len(ids)
+			}
+
+			h := i
+			if i < len(o.Hash) {
+				h = o.Hash[i]
+			}
+
+			metas = append(metas, vf.CoqApp("rmt", vf.CoqNat(r.Src), vf.CoqNat(ids[id]), vf.CoqNat(h)))
+		}
+
+		hops := make([]string, 0, len(c.Hist))
+
+		for k, op := range c.Hist {
+			var h string
+
+			switch op.Kind {
+			case "add":
+				h = vf.CoqApp("HAdd", vf.CoqListOf(op.Rules, vf.CoqNat))
+			case "update":
+				h = vf.CoqApp("HUpd", vf.CoqNat(op.Src), vf.CoqListOf(op.Rules, vf.CoqNat))
+			default:
+				h = vf.CoqApp("HDel", vf.CoqNat(op.Src))
+			}
+
+			hops = append(hops, vf.CoqPair(h, vf.CoqBool(k < len(o.OpOK) && o.OpOK[k])))
+		}
+
+		return vf.CoqApp("csh", vf.CoqListOf(c.Rules, c03CoqRule),
+			"["+strings.Join(metas, "; ")+"]", "["+strings.Join(hops, "; ")+"]",
+			vf.CoqListOf(o.Oracle, func(e c03Oracle) string {
+				return vf.CoqApp("oe", vf.CoqBool(e.Host), c03CoqType(e.Type), vf.CoqStr(e.Pat), vf.CoqStr(e.Val), vf.CoqBool(e.Ans))
+			}),
+			load, vf.CoqListOf(o.Reqs, c03CoqReq))
 	}
 
 	return vf.CoqApp("cs", vf.CoqListOf(c.Rules, c03CoqRule), vf.CoqNat(split),
@@ -1261,7 +1401,140 @@ func c03Gen(r *vf.Rand) c03Case {
 		c.Split = r.Range(1, len(c.Rules)-1)
 	}
 
+	if r.Chance(35) {
+		c03GenHist(r, &c, &exprs)
+	}
+
 	return c
+}
+
+// c03GenHist turns the case into one with a history: the rule sets of the case are added, then 1-3 further
+// operations follow - UpdateRuleSet (per loaded rule: unchanged / a changed version with the same id / gone; sometimes
+// a new rule), DeleteRuleSet, AddRuleSet of a further rule set.  New rules and versions are appended to the rule
+// table (their expressions are mostly mutations of the ones present, so prefixes are shared, split and merged again);
+// two more requests aim at the expressions added.
+func c03GenHist(r *vf.Rand, c *c03Case, exprs *[][]c03Tok) {
+	c.Via = ""
+	nsrc := 1
+	loaded := map[int][]int{}
+
+	for i := range c.Rules {
+		c.Rules[i].ID = fmt.Sprintf("r%d", i)
+		if c.Split > 0 && i >= c.Split {
+			c.Rules[i].Src = 1
+			nsrc = 2
+		}
+
+		loaded[c.Rules[i].Src] = append(loaded[c.Rules[i].Src], i)
+	}
+
+	c.Split = 0
+
+	for s := 0; s < nsrc; s++ {
+		c.Hist = append(c.Hist, c03HOp{Kind: "add", Src: s, Rules: loaded[s]})
+	}
+
+	fresh := func(id string, src int) int {
+		nr := c03GenRule(r, exprs, 0)
+		nr.ID, nr.Src = id, src
+		c.Rules = append(c.Rules, nr)
+
+		return len(c.Rules) - 1
+	}
+
+	for k, n := 0, r.Range(1, 3); k < n; k++ {
+		switch x := r.Intn(100); {
+		case x < 55:
+			s := r.Intn(nsrc)
+
+			var list []int
+
+			for _, i := range loaded[s] {
+				switch y := r.Intn(100); {
+				case y < 45:
+					list = append(list, i)
+				case y < 78:
+					list = append(list, fresh(c.Rules[i].ID, s))
+				}
+			}
+
+			if r.Chance(35) {
+				list = append(list, fresh(fmt.Sprintf("r%d", len(c.Rules)), s))
+			}
+
+			c.Hist = append(c.Hist, c03HOp{Kind: "update", Src: s, Rules: list})
+			loaded[s] = list
+		case x < 80:
+			s := r.Intn(nsrc)
+			c.Hist = append(c.Hist, c03HOp{Kind: "delete", Src: s})
+			loaded[s] = nil
+		default:
+			s := nsrc
+			nsrc++
+			list := []int{fresh(fmt.Sprintf("r%d", len(c.Rules)), s)}
+			c.Hist = append(c.Hist, c03HOp{Kind: "add", Src: s, Rules: list})
+			loaded[s] = list
+		}
+	}
+
+	for i := 0; i < 2; i++ {
+		c.Reqs = append(c.Reqs, c03Req{Style: "http", Method: vf.Pick(r, c03ReqMeths[:3]), Scheme: "http",
+			Host: vf.Pick(r, c03ReqHosts[:2]), Target: c03GenTarget(r, *exprs, "http")})
+	}
+
+	// a pair of siblings INSIDE a literal segment below wildcards (<pre>b in rule set 0, <pre>c in a rule set of its
+	// own): the second Add splits the edge, the DeleteRuleSet of either one makes deleteChild merge the remaining
+	// node - which holds a value and wildcard key names - with its value-less parent
+	if r.Chance(45) {
+		pre := vf.Pick(r, []string{"/:a/a", "/:id/x/a", "/a/:x/a", "/f/a", "/:a/:b/a", "/:*/:x/a", "/x/:id/b/a"})
+
+		var names []string
+
+		target := ""
+
+		for i, seg := range strings.Split(pre, "/") {
+			if i > 0 {
+				target += "/"
+			}
+
+			if strings.HasPrefix(seg, ":") {
+				names = append(names, seg[1:])
+				target += vf.Pick(r, []string{"1", "a", "%41", "b"})
+			} else {
+				target += seg
+			}
+		}
+
+		mk := func(tail string, src int) int {
+			rt := c03Route{Path: pre + tail}
+			if len(names) > 0 && r.Chance(60) {
+				if n := vf.Pick(r, names); n != "*" {
+					rt.Params = []c03Param{{n, vf.Pick(r, []c03TM{{"exact", "1"}, {"exact", "a"}, {"glob", "*"}, {"regex", "^[a-zA-Z0-9]+$"}, {"exact", "A"}})}}
+				}
+			}
+
+			c.Rules = append(c.Rules, c03Rule{ID: fmt.Sprintf("r%d", len(c.Rules)), Src: src, Bt: r.Chance(70), Routes: []c03Route{rt},
+				Slash: vf.Pick(r, []string{"", "on", "no_decode"})})
+
+			return len(c.Rules) - 1
+		}
+
+		sA, sB := nsrc, nsrc+1
+		a, b := mk("b", sA), mk("c", sB)
+		c.Hist = append(c.Hist, c03HOp{Kind: "add", Src: sA, Rules: []int{a}}, c03HOp{Kind: "add", Src: sB, Rules: []int{b}})
+
+		gone := vf.Pick(r, []int{sA, sB})
+		if r.Chance(50) {
+			c.Hist = append(c.Hist, c03HOp{Kind: "delete", Src: gone})
+		} else {
+			c.Hist = append(c.Hist, c03HOp{Kind: "update", Src: gone})
+		}
+
+		for _, tail := range []string{"b", "c", "b"} {
+			c.Reqs = append(c.Reqs, c03Req{Style: vf.Pick(r, []string{"http", "http", "fwd", "direct"}), Method: "GET", Scheme: "http",
+				Host: "a.com", Target: target + tail})
+		}
+	}
 }
 
 // ---- corpus: the witnesses of the findings and the documentation's examples --------------------------
@@ -1271,6 +1544,50 @@ func c03Corpus() []c03Case {
 	ex := func(n, v string) c03Param { return c03Param{n, c03TM{"exact", v}} }
 
 	return []c03Case{
+		// a history (C03_history_nonvacuous): /foo/bar from rule set 0, /foo/baz/:x (x = 1) and /files/*rest (rest = a/b)
+		// from rule set 1 - the edge "bar" is split into "ba" + "r" / "z" - then rule set 0 is deleted: the leaf "r"
+		// goes and deleteChild merges "ba" + "z"
+		{
+			Rules: []c03Rule{
+				{ID: "r0", Src: 0, Routes: []c03Route{{Path: "/foo/bar"}}},
+				{ID: "r1", Src: 1, Methods: []string{"GET"}, Routes: []c03Route{
+					{Path: "/foo/baz/:x", Params: []c03Param{ex("x", "1")}},
+					{Path: "/files/*rest", Params: []c03Param{ex("rest", "a/b")}},
+				}},
+			},
+			Hist: []c03HOp{{Kind: "add", Src: 0, Rules: []int{0}}, {Kind: "add", Src: 1, Rules: []int{1}}, {Kind: "delete", Src: 0}},
+			Reqs: []c03Req{rq("GET", "h", "/foo/baz/1"), rq("GET", "h", "/foo/baz/2"), rq("GET", "h", "/files/a/b"),
+				rq("GET", "h", "/foo/bar"), rq("POST", "h", "/foo/baz/1")},
+		},
+		// deleteChild merges a node that holds a value and wildcard key names with its value-less parent:
+		// /:a/ab and /:a/ac, the latter deleted again; /:x/:y/zb and /:x/:y/zc likewise through an update
+		{
+			Rules: []c03Rule{
+				{ID: "r0", Src: 0, Routes: []c03Route{{Path: "/:a/ab", Params: []c03Param{ex("a", "1")}}}},
+				{ID: "r1", Src: 1, Routes: []c03Route{{Path: "/:a/ac"}}},
+				{ID: "r2", Src: 0, Slash: "on", Routes: []c03Route{{Path: "/:x/:y/zb", Params: []c03Param{ex("y", "A")}}}},
+				{ID: "r3", Src: 2, Routes: []c03Route{{Path: "/:x/:y/zc"}}},
+			},
+			Hist: []c03HOp{{Kind: "add", Src: 0, Rules: []int{0, 2}}, {Kind: "add", Src: 1, Rules: []int{1}},
+				{Kind: "add", Src: 2, Rules: []int{3}}, {Kind: "delete", Src: 1}, {Kind: "update", Src: 2}},
+			Reqs: []c03Req{rq("GET", "h", "/1/ab"), rq("GET", "h", "/2/ab"), rq("GET", "h", "/1/ac"), rq("GET", "h", "/p/%41/zb"),
+				rq("GET", "h", "/p/q/zc")},
+		},
+		// an update that replaces a rule by a version with other wildcard names at the same expression shape, keeps
+		// one rule and drops one; then the other rule set is replaced entirely
+		{
+			Rules: []c03Rule{
+				{ID: "r0", Src: 0, Routes: []c03Route{{Path: "/a/:x/c", Params: []c03Param{ex("x", "b")}}}},
+				{ID: "r1", Src: 0, Routes: []c03Route{{Path: "/a/b"}}},
+				{ID: "r2", Src: 1, Bt: true, Routes: []c03Route{{Path: "/ab/*rest"}}},
+				{ID: "r0", Src: 0, Routes: []c03Route{{Path: "/a/:y/c", Params: []c03Param{ex("y", "1")}}}},
+				{ID: "r2", Src: 1, Routes: []c03Route{{Path: "/abc/:z"}}},
+			},
+			Hist: []c03HOp{{Kind: "add", Src: 0, Rules: []int{0, 1}}, {Kind: "add", Src: 1, Rules: []int{2}},
+				{Kind: "update", Src: 0, Rules: []int{3}}, {Kind: "update", Src: 1, Rules: []int{4}}},
+			Reqs: []c03Req{rq("GET", "h", "/a/b/c"), rq("GET", "h", "/a/1/c"), rq("GET", "h", "/a/b"), rq("GET", "h", "/ab/x/y"),
+				rq("GET", "h", "/abc/7")},
+		},
 		// C03-F1: two hosts are AND-ed
 		{
 			Rules: []c03Rule{{Routes: []c03Route{{Path: "/a"}}, Hosts: []c03TM{{"exact", "a.com"}, {"exact", "b.com"}}}},
@@ -1421,6 +1738,21 @@ func c03Tags(c c03Case, o c03Obs) ([]string, bool) {
 			tags["two-rule-sets:second-refused"] = true
 		}
 	}
+	if len(c.Hist) > 0 {
+		tags["history:rule-set-operations"] = true
+		tags[fmt.Sprintf("history:ops=%d", len(c.Hist))] = true
+
+		for k, op := range c.Hist {
+			if k >= 1 && op.Kind != "add" {
+				tags["history:"+op.Kind] = true
+			}
+
+			if k < len(o.OpOK) && !o.OpOK[k] {
+				tags["history:"+op.Kind+"-refused"] = true
+			}
+		}
+	}
+
 	nontrivial := false
 
 	type rinfo struct {
